@@ -920,9 +920,17 @@ func checkC20(P *Prog, r *Result) {
 			return one, n
 		}
 		var targs map[string]types.Type
-		if one, n := pick(l.fn.AnonFuncs); n == 1 {
+		one, nHere := pick(l.fn.AnonFuncs)
+		if nHere == 1 {
 			cl = one
-		} else if n == 0 && l.tmplFn == nil {
+		} else if nHere == 0 && l.tmplFn != nil {
+			// the literal and its predicate live in a constructor helper: pair them there, under the
+			// binding of the helper's parameters to this constructor's arguments
+			if one, n := pick(l.tmplFn.AnonFuncs); n == 1 {
+				cl, env = one, l.tmplEnv
+			}
+		}
+		if cl == nil && nHere == 0 {
 			// the predicate is built by a closure factory called in the constructor
 			// (`stringTestFunc[T](func(s string) bool {...})`): its closure, under the binding of the factory's
 			// parameters and type parameters at that call
@@ -933,7 +941,19 @@ func checkC20(P *Prog, r *Result) {
 					return
 				}
 				fac := callOf(c).static
-				if fac == nil || fac.Blocks == nil || !inModule(funcPkgPath(fac)) || !types.Identical(c.Type().Underlying(), boolSig) {
+				if fac == nil || fac.Blocks == nil || !inModule(funcPkgPath(fac)) {
+					return
+				}
+				// the factory returns the test function, alone or next to the test literal (`(Test, BoolTFunc)`)
+				makesPred := types.Identical(c.Type().Underlying(), boolSig)
+				if tup, isTup := c.Type().(*types.Tuple); isTup {
+					for i := 0; i < tup.Len(); i++ {
+						if types.Identical(tup.At(i).Type().Underlying(), boolSig) {
+							makesPred = true
+						}
+					}
+				}
+				if !makesPred {
 					return
 				}
 				made := returnedClosure(fac)
@@ -958,12 +978,6 @@ func checkC20(P *Prog, r *Result) {
 			})
 			if nFac != 1 {
 				cl, env, targs = nil, nil, nil
-			}
-		} else if n == 0 && l.tmplFn != nil {
-			// the literal and its predicate live in a constructor helper: pair them there, under the
-			// binding of the helper's parameters to this constructor's arguments
-			if one, n := pick(l.tmplFn.AnonFuncs); n == 1 {
-				cl, env = one, l.tmplEnv
 			}
 		}
 		c := fmt.Sprintf("%s#%s", fname(l.fn), l.code)
